@@ -21,11 +21,17 @@ import (
 )
 
 func c10ParseSched(f []string) c10Sched {
-	// <first> <second> <reps> <seed> <filler> <warm>
+	// <first> <second> <reps> <seed> <filler> <warm> [<live>]
+	// live = number of FURTHER documents that are open with an unsaved, cleanly parsing edit (each holds a live
+	// analysis result in the project's LRU cache) and use the global the queries ask about; a.lua is edited too
 	reps, _ := strconv.Atoi(f[2])
 	seed, _ := strconv.ParseInt(f[3], 10, 64)
 	filler, _ := strconv.Atoi(f[4])
-	return c10Sched{first: f[0], second: f[1], reps: reps, seed: seed, filler: filler, warm: len(f) > 5 && f[5] == "1"}
+	live := 0
+	if len(f) > 6 {
+		live, _ = strconv.Atoi(f[6])
+	}
+	return c10Sched{first: f[0], second: f[1], reps: reps, seed: seed, filler: filler, warm: len(f) > 5 && f[5] == "1", live: live}
 }
 
 var c10FrameRe = regexp.MustCompile(`^  (\S+)\(\)$`)
@@ -201,7 +207,7 @@ func c10Child(line string) string {
 	switch mode {
 	case "race":
 		s := c10ParseSched(f[1:])
-		c := c10Setup(dir, s.filler, s.warm)
+		c := c10SetupLive(dir, s.filler, s.warm, s.live)
 		ans := c10RunOverlap(c, s)
 		for _, a := range ans {
 			if a[0] == "TIMEOUT" {
@@ -288,7 +294,7 @@ func c10CrashWord(stderr string, err error) string {
 func init() {
 	register("c10.child", c10Child)
 
-	// case: <first> <second> <reps> <seed> <filler> <warm>
+	// case: <first> <second> <reps> <seed> <filler> <warm> [<live>]
 	// answer: "NORACE" | "RACE A+B,C+D" (sorted set of handler-method pairs the race detector reported)
 	//         | "CRASH concurrent-map [RACE ...]" | "TIMEOUT"
 	raceLeg := func(line string) string {
